@@ -217,10 +217,23 @@ def refmerge_part(run, scratch, cfg):
 
         # an insertion of one sequence (ref gap at position p) that falls inside or at the edge of a run of
         # reference positions another sequence lacks
-        cross = any(
-            (p in del_positions(lay[j2]) or (p - 1) in del_positions(lay[j2]))
-            for i2 in range(len(lay)) for j2 in range(len(lay)) if i2 != j2 for p in ip[i2]
-        )
+        # ... and WHERE in that run: strictly inside it, at its start, or at its end (each is a different lookup in
+        # _GapOffset; a coarser key let a defect at one of them hide a new defect at another)
+        rel = set()
+        for i2 in range(len(lay)):
+            for j2 in range(len(lay)):
+                if i2 == j2:
+                    continue
+                dp = del_positions(lay[j2])
+                for p in ip[i2]:
+                    if p in dp and (p - 1) in dp:
+                        rel.add("inside")
+                    elif p in dp:
+                        rel.add("start")
+                    elif (p - 1) in dp:
+                        rel.add("end")
+        # "inside" is the recorded defect; a failing case without an inside-insertion is keyed by what it does have
+        cross = "inside" if "inside" in rel else ("+".join(sorted(rel)) if rel else "False")
         run.fail(f"refmerge:pairwise-alignment-not-kept:indel-adjacent-within-a-pair={adjacent}:insertion-in-another-sequences-deletion={cross}", {"layouts": lay, "case": cases[b - 1]}, what="multiple alignment does not keep a sequence's pairwise alignment with the reference")
     if cases:
         run.sample({"refmerge_case": cases[len(cases) // 2]})
